@@ -191,6 +191,27 @@ theorem C09_model_compute (r : Replica) (h : WInv r.sigs noPending r.log) :
     IsLogOf r.sigs (recompute Defects.none r.sigs r.log) :=
   C09_barrier h
 
+/-- **C09 (the code as it is marks every day it touches).** Since the fixes 8123d04, 1a9cbe6, 9b21e0a and 456214b the
+    three statements above hold for `Defects.asImplemented` as well: every local write, every synchronised row and
+    every synchronised deletion record of the model of the code marks the days whose content it changes. (What is
+    left of C09's defects concerns the history hashes only: `C09_breaks_historySeedDropped`,
+    `C09_breaks_entityNotCompared`, `C09_breaks_emptyDayRow`.) -/
+theorem C09_model_marks_asImplemented :
+    (∀ (w : World) (cur : Replica), IdsNodup cur → WInv cur.sigs noPending cur.log → ∀ (p : Nat) (op : WOp),
+      WInv (effectOf Defects.asImplemented w cur cur p op).cur.sigs noPending
+        (markAll (effectOf Defects.asImplemented w cur cur p op).marks
+          (effectOf Defects.asImplemented w cur cur p op).cur.log)) ∧
+    (∀ (rights : List Bool) (r : Replica), IdsNodup r → WInv r.sigs noPending r.log →
+      ∀ (n : Node) (old : Option Node), r.findId n.id = old → (∀ o, old = some o → o.ent = n.ent) →
+      WInv (ingestNode Defects.asImplemented rights r n old).sigs noPending
+        (ingestNode Defects.asImplemented rights r n old).log) ∧
+    (∀ (rights : List Bool) (r : Replica), WInv r.sigs noPending r.log → ∀ (ts : List NTomb),
+      WInv (applyNTombs Defects.asImplemented rights r ts).sigs noPending
+        (applyNTombs Defects.asImplemented rights r ts).log) :=
+  ⟨fun w _ hn h p op => effectOf_winv rfl w hn h p op,
+   fun rights _ hn h n old ho hent => ingestNode_winv rfl rights hn h n old ho hent,
+   fun rights _ h ts => applyNTombs_winv rfl rights h ts⟩
+
 /-! ### witnesses on the replica model: writes that change a day without marking it -/
 
 def rowOf (w : World) (p : Nat) (k : Key) : Option (Nat × Bool) :=
@@ -210,19 +231,38 @@ theorem C09_breaks_oldDayUnmarked :
     rowOf (World.run Defects.asImplemented (World.init [true, true]) crossDayTrace) 1 k10 = some (1, false) := by
   decide
 
-/-- row 1 created on day 0 and recomputed; on day 1 a reference deletion that names no existing reference -/
+/-- row 1 created on day 0 with a reference to row 2 and recomputed; on day 1 that reference is deleted -/
 def refDeletionTrace : List Op :=
+  [.clock 1000, .write 0 (.new 1 1 0 1 11), .write 0 (.new 2 1 0 2 12), .write 0 (.ref 1 2 15), .compute 0,
+   .clock 86401000, .write 0 (.unref 1 2 13 14), .compute 0]
+
+/-- **C09_breaks_refDeletionUnmarked** (#3, fixed in /repo by 9b21e0a — regression witness). The reference deletion
+    re-dates and re-signs row 1 (day 0 → day 1); with its days left unmarked day 0 still counts two entries and
+    row 1 is not part of what day 1 hashes; with both days marked (the code now) every day shows its content. -/
+theorem C09_breaks_refDeletionUnmarked :
+    let w := World.run { Defects.asImplemented with refDeletionUnmarked := true } (World.init [true]) refDeletionTrace
+    let w' := World.run Defects.asImplemented (World.init [true]) refDeletionTrace
+    rowOf w 0 k10 = some (2, false) ∧ ((w.peer 0).sigs 1 0 0).length = 1 ∧
+    rowOf w' 0 k10 = some (1, false) ∧ ((w'.peer 0).sigs 1 0 0).length = 1 ∧
+    rowOf w' 0 k11 = some (((w'.peer 0).sigs 1 0 1).length, false) := by
+  decide
+
+/-- the same without the reference: the deletion names a reference that does not exist -/
+def noRefDeletionTrace : List Op :=
   [.clock 1000, .write 0 (.new 1 1 0 1 11), .write 0 (.new 2 1 0 2 12), .compute 0,
    .clock 86401000, .write 0 (.unref 1 2 13 14), .compute 0]
 
-/-- **C09_breaks_refDeletionUnmarked** (#3). The reference deletion re-dates and re-signs row 1 (day 0 → day 1)
-    and marks nothing: day 0 still counts two entries, day 1 has content and no log row at all. -/
-theorem C09_breaks_refDeletionUnmarked :
-    let w := World.run Defects.asImplemented (World.init [true]) refDeletionTrace
+/-- **C09_breaks_refDeletionTouchesRowWithoutRef** (#3, fixed in /repo by 456214b and 9b21e0a — regression witness).
+    Before the fixes a reference deletion that removes nothing re-dated and re-signed the source row and marked
+    nothing: day 0 still counts two entries, day 1 has content and no log row at all. The code now leaves the row
+    where it is. -/
+theorem C09_breaks_refDeletionTouchesRowWithoutRef :
+    let w := World.run { Defects.asImplemented with refDeletionUnmarked := true, refDeletionTouchesRowWithoutRef := true }
+      (World.init [true]) noRefDeletionTrace
+    let w' := World.run Defects.asImplemented (World.init [true]) noRefDeletionTrace
     rowOf w 0 k10 = some (2, false) ∧ ((w.peer 0).sigs 1 0 0).length = 1 ∧
     rowOf w 0 k11 = none ∧ ((w.peer 0).sigs 1 0 1).length = 1 ∧
-    rowOf (World.run { Defects.asImplemented with refDeletionUnmarked := false } (World.init [true]) refDeletionTrace) 0 k10
-      = some (1, false) := by
+    rowOf w' 0 k10 = some (2, false) ∧ ((w'.peer 0).sigs 1 0 0).length = 2 ∧ ((w'.peer 0).sigs 1 0 1).length = 0 := by
   decide
 
 /-- peer 1 holds a newer version (day 1) of a row that peer 0 deletes on day 2 at its day-0 version -/
